@@ -19,11 +19,9 @@
 package c17
 
 import (
-	"errors"
 	"fmt"
 	"math/rand"
 	"os"
-	"path/filepath"
 	"sort"
 	"strings"
 	"sync"
@@ -44,10 +42,9 @@ import (
 )
 
 const (
-	tickP    = time.Second      // preemption interval (virtual)
-	forever  = 100000 * time.Hour // "never" in virtual time
-	watchdog = 60 * time.Second  // wall-clock watchdog: expiry is inconclusive
-	grace    = 20 * time.Second  // wall-clock wait for a call to return after Stop
+	tickP    = 100 * time.Millisecond // preemption interval (virtual)
+	forever  = 100000 * time.Hour     // "never" in virtual time
+	watchdog = 60 * time.Second       // wall-clock watchdog: expiry is inconclusive
 )
 
 // ---------------------------------------------------------------------------
@@ -239,11 +236,9 @@ func newWorker(run *ev.Run, id int, base string) (*worker, error) {
 	w := &worker{id: id, dir: rig.MkDir(base, fmt.Sprintf("w%d", id)), tracker: rig.NewTracker()}
 	r := run.Rand(fmt.Sprintf("worker-%d", id))
 	var err error
-	rig.WithLabel("verifpeer", fmt.Sprintf("w%d-seeder", id), func() {
-		w.seeder, err = rig.NewPeer(rig.PeerOptions{
-			Config: seederConfig(), Clock: clock.NewMock(), Tracker: w.tracker,
-			Dir: rig.MkDir(w.dir, "seeder"), PeerID: rig.RandomPeerID(r),
-		})
+	w.seeder, err = rig.NewPeer(rig.PeerOptions{
+		Config: seederConfig(), Clock: clock.NewMock(), Tracker: w.tracker,
+		Dir: rig.MkDir(w.dir, "seeder"), PeerID: rig.RandomPeerID(r),
 	})
 	if err != nil {
 		return nil, err
@@ -266,6 +261,7 @@ func newWorker(run *ev.Run, id int, base string) (*worker, error) {
 
 type call struct {
 	id           string
+	gid          atomic.Int64
 	b            int // index into spec.Blobs, -1 = unknown digest
 	step         int
 	startStamp   int64
@@ -291,22 +287,25 @@ type caseRun struct {
 	wgate *rig.Gate // write gate ("write:<b>") and store marks ("stored:<b>")
 	L     *rig.Peer
 
-	stamp atomic.Int64
+	stamp   atomic.Int64
+	loopGID atomic.Int64
 
-	mu       sync.Mutex
-	stores   map[int][]window // windows in which blob b was moved to the cache
-	stale    map[int][]int64  // stamps at which a stale completion notice hit a newer control
-	droppers []string         // "<event>" which removed a complete control that still had waiters
-	pre      map[int]scheduler.VerifC17TorrentState
+	mu         sync.Mutex
+	stores     map[int][]window                       // windows in which blob b was moved to the cache
+	stale      map[int][]int64                        // stamps at which a stale completion notice hit a newer control
+	droppers   map[int]string                         // blob -> first event which removed a complete control that still had waiters
+	atShutdown map[int]scheduler.VerifC17TorrentState // control state when shutdownEvent was applied
+	pre        map[int]scheduler.VerifC17TorrentState
 
-	calls       []*call
-	rmCalls     []chan error
-	stopStarted bool
-	stopDone    chan struct{}
-	ticksWhileParked int
-	executed    []string
-	closedOnce  map[int]bool
-	inconcl     string
+	calls              []*call
+	rmCalls            []chan error
+	stopStarted        bool
+	stopDone           chan struct{}
+	ticksWhileParked   int
+	executed           []string
+	closedOnce         map[int]bool
+	inconcl            string
+	wedged             bool
 	actionsWithPending int
 }
 
@@ -348,6 +347,8 @@ func (cr *caseRun) setup() error {
 	cr.wgate = rig.NewGate()
 	cr.stores = map[int][]window{}
 	cr.stale = map[int][]int64{}
+	cr.droppers = map[int]string{}
+	cr.atShutdown = map[int]scheduler.VerifC17TorrentState{}
 	cr.pre = map[int]scheduler.VerifC17TorrentState{}
 	cr.closedOnce = map[int]bool{}
 
@@ -363,8 +364,18 @@ func (cr *caseRun) setup() error {
 
 	// Loop-side monitor: runs on the leecher's event loop goroutine.
 	cr.gate.BeforeApply = func(info scheduler.VerifC17EventInfo, v scheduler.VerifC17View) {
+		if cr.loopGID.Load() == 0 {
+			cr.loopGID.Store(rig.GID())
+		}
 		for i, b := range cr.blobs {
 			cr.pre[i] = v.Torrent(b.InfoHash())
+		}
+		if info.Name == rig.EvShutdown {
+			cr.mu.Lock()
+			for i := range cr.blobs {
+				cr.atShutdown[i] = cr.pre[i]
+			}
+			cr.mu.Unlock()
 		}
 		if info.Name == rig.EvComplete {
 			if i := cr.blobIndex(info.InfoHash, info.Digest); i >= 0 {
@@ -385,7 +396,9 @@ func (cr *caseRun) setup() error {
 			pre, post := cr.pre[i], v.Torrent(b.InfoHash())
 			if pre.Present && pre.Complete && pre.Waiters > 0 && (!post.Present || post.Ref != pre.Ref) {
 				cr.mu.Lock()
-				cr.droppers = append(cr.droppers, info.Name)
+				if _, seen := cr.droppers[i]; !seen {
+					cr.droppers[i] = info.Name
+				}
 				cr.mu.Unlock()
 				cr.run.Count("complete_control_with_waiters_removed_by_"+info.Name, 1)
 			}
@@ -423,20 +436,21 @@ func (cr *caseRun) setup() error {
 
 	var err error
 	r := cr.run.Rand("peerid-" + cr.id)
-	rig.WithLabel("verifpeer", cr.id, func() {
-		cr.L, err = rig.NewPeer(rig.PeerOptions{
-			Config: leecherConfig(c), Clock: cr.clk, Tracker: cr.w.tracker,
-			Dir: rig.MkDir(cr.w.dir, cr.id), PeerID: rig.RandomPeerID(r),
-			WrapArchive: func(a storage.TorrentArchive) storage.TorrentArchive { return rig.NewArchiveWrapper(a, hooks) },
-			Hooks:       cr.gate.Hooks(),
-		})
+	cr.L, err = rig.NewPeer(rig.PeerOptions{
+		Config: leecherConfig(c), Clock: cr.clk, Tracker: cr.w.tracker,
+		Dir: rig.MkDir(cr.w.dir, cr.id), PeerID: rig.RandomPeerID(r),
+		WrapArchive: func(a storage.TorrentArchive) storage.TorrentArchive { return rig.NewArchiveWrapper(a, hooks) },
+		Hooks:       cr.gate.Hooks(),
 	})
 	return err
 }
 
 func (cr *caseRun) pendingCalls() int {
 	n := 0
-	for _, c := range cr.calls {
+	cr.mu.Lock()
+	calls := append([]*call(nil), cr.calls...)
+	cr.mu.Unlock()
+	for _, c := range calls {
 		select {
 		case <-c.done:
 		default:
@@ -489,55 +503,39 @@ func (cr *caseRun) startDownload(stepIdx, b int) {
 			}
 		}
 	}
-	c := &call{id: fmt.Sprintf("%s-call%d", cr.id, len(cr.calls)), b: b, step: stepIdx, done: make(chan struct{})}
-	cr.calls = append(cr.calls, c)
 	before := cr.gate.Count(rig.EvNewTorrent)
-	go rig.WithLabel("verifcall", c.id, func() {
-		c.startStamp = cr.next()
-		c.startPresent = b >= 0 && cr.L.InCache(blob)
-		c.err = cr.L.Sched.Download(rig.Namespace, blob.Digest)
-		if b >= 0 {
-			st := cr.L.Stat(blob, c.err == nil)
-			c.endPresent, c.endExact = st.InCache, st.Exact
-		}
-		c.endStamp = cr.next()
-		close(c.done)
-	})
+	c := cr.launch(stepIdx, b)
 	// Settle: the request reached the loop (applied), parked at the gate, or returned.
-	ok := cr.gate.Wait(watchdog, func(count func(string) rig.Counters) bool {
-		select {
-		case <-c.done:
-			return true
-		default:
-		}
+	if !cr.settleDoneOr(c.done, func(count func(string) rig.Counters) bool {
 		n := count(rig.EvNewTorrent)
 		return n.Applied > before.Applied || n.Parked > before.Parked
-	})
-	if !ok {
-		// c.done is not signalled through the gate; poll once more before giving up.
-		select {
-		case <-c.done:
-		default:
-			cr.fail("watchdog: download request neither applied, parked nor returned")
-		}
+	}) {
+		cr.fail("watchdog: download request neither applied, parked nor returned")
 	}
 }
 
 func (cr *caseRun) settleDoneOr(done <-chan struct{}, pred func(count func(string) rig.Counters) bool) bool {
-	deadline := time.Now().Add(watchdog)
-	for {
-		select {
-		case <-done:
-			return true
-		default:
+	combined := make(chan struct{})
+	quit := make(chan struct{})
+	go func() {
+		for {
+			select {
+			case <-done:
+				close(combined)
+				return
+			case <-quit:
+				return
+			default:
+			}
+			if cr.gate.Wait(2*time.Millisecond, pred) {
+				close(combined)
+				return
+			}
 		}
-		if cr.gate.Wait(2*time.Millisecond, pred) {
-			return true
-		}
-		if time.Now().After(deadline) {
-			return false
-		}
-	}
+	}()
+	ok := cr.awaitLoop(combined, "settle")
+	close(quit)
+	return ok
 }
 
 func (cr *caseRun) execStep(idx int, s step) {
@@ -626,9 +624,24 @@ func (cr *caseRun) execStep(idx int, s step) {
 		stored := fmt.Sprintf("stored:%d", s.B)
 		beforeStored := cr.wgate.Count(stored).Applied
 		beforeC := cr.gate.Count(rig.EvComplete)
-		cr.wgate.Release(fmt.Sprintf("write:%d", s.B))
-		if !cr.wgate.Wait(watchdog, func(count func(string) rig.Counters) bool { return count(stored).Applied > beforeStored }) {
+		wname := fmt.Sprintf("write:%d", s.B)
+		beforeW := cr.wgate.Count(wname)
+		cr.wgate.Release(wname)
+		// The torrent completes, or a piece write fails: a RemoveTorrent that ran
+		// between a request's CreateTorrent and its newTorrentEvent deleted the
+		// download file under the torrent, which can then only time out.
+		writeFailed := false
+		if !cr.wgate.Wait(watchdog, func(count func(string) rig.Counters) bool {
+			n := count(wname)
+			writeFailed = (n.Sent - n.SentOK) > (beforeW.Sent - beforeW.SentOK)
+			return count(stored).Applied > beforeStored || writeFailed
+		}) {
 			cr.fail("watchdog: torrent did not complete")
+			return
+		}
+		if writeFailed && cr.wgate.Count(stored).Applied == beforeStored {
+			cr.run.Count("fill_ended_by_piece_write_error", 1)
+			cr.executed = append(cr.executed, "fill-failed("+s.String()+":piece-write-error)")
 			return
 		}
 		if !cr.gate.Wait(watchdog, func(count func(string) rig.Counters) bool {
@@ -706,41 +719,112 @@ func (cr *caseRun) doStop() {
 	cr.stopStarted = true
 	cr.stopDone = make(chan struct{})
 	go func() { cr.L.Sched.Stop(); close(cr.stopDone) }()
-	applied := cr.settleDoneOr(cr.stopDone, func(count func(string) rig.Counters) bool {
-		return count(rig.EvShutdown).Applied > 0
-	})
-	if !applied {
-		cr.loopBlockedVerdict("stop")
+	applied := make(chan struct{})
+	go func() {
+		cr.gate.Wait(10*watchdog, func(count func(string) rig.Counters) bool { return count(rig.EvShutdown).Applied > 0 })
+		close(applied)
+	}()
+	if !cr.awaitLoop(applied, "stop") {
 		return
 	}
 	cr.gate.ReleaseAll()
-	select {
-	case <-cr.stopDone:
-	case <-time.After(watchdog):
-		cr.loopBlockedVerdict("stop")
-	}
+	cr.awaitLoop(cr.stopDone, "stop")
 }
 
-// loopBlockedVerdict classifies a Stop / Probe which did not get through.
-func (cr *caseRun) loopBlockedVerdict(where string) {
-	blocks := rig.FindGoroutines("verifpeer", cr.id, "baseEventLoop).run", "runtime.chansend")
-	if len(blocks) == 0 {
-		cr.fail("watchdog: " + where + " did not complete and the event loop is not blocked in a channel send")
-		return
+// parkedInDownload reports whether the call's goroutine is parked in
+// doDownload's receive from its result channel.
+func parkedInDownload(dump map[int64]rig.Goroutine, c *call) (rig.Goroutine, bool) {
+	g, ok := dump[c.gid.Load()]
+	if !ok || g.State != "chan receive" {
+		return g, false
 	}
-	site := "unknown"
-	for _, name := range []string{"shutdownEvent", "dispatcherCompleteEvent", "removeTorrentEvent", "preemptionTickEvent", "newTorrentEvent"} {
-		if strings.Contains(blocks[0], "scheduler."+name+".apply") {
-			site = name
-			break
+	lines := strings.SplitN(g.Stack, "\n", 3)
+	return g, len(lines) >= 2 && strings.HasPrefix(lines[1], "github.com/uber/kraken/lib/torrent/scheduler.(*scheduler).doDownload")
+}
+
+// awaitLoop waits for done. Meanwhile it watches the event loop goroutine: if
+// it is parked in a channel send made directly by an apply method (or
+// removeTorrent) while every outstanding Download call is itself parked
+// receiving from its own (empty) result channel, nobody can ever take that
+// value: the loop is blocked forever -> violation. The wall-clock watchdog
+// only yields "inconclusive".
+func (cr *caseRun) awaitLoop(done <-chan struct{}, where string) bool {
+	deadline := time.Now().Add(watchdog)
+	wait := 250 * time.Millisecond // healthy paths finish long before the first dump
+	for {
+		timer := time.NewTimer(wait)
+		select {
+		case <-done:
+			timer.Stop()
+			return true
+		case <-timer.C:
+		}
+		if wait < 500*time.Millisecond {
+			wait *= 2
+		}
+		dump := rig.Dump()
+		g, ok := dump[cr.loopGID.Load()]
+		if ok && g.State == "chan send" && g.In("baseEventLoop).run") {
+			lines := strings.SplitN(g.Stack, "\n", 3)
+			top := ""
+			if len(lines) >= 2 {
+				top = lines[1]
+			}
+			site := ""
+			for _, name := range []string{"shutdownEvent", "dispatcherCompleteEvent", "removeTorrentEvent", "preemptionTickEvent", "newTorrentEvent"} {
+				if strings.Contains(top, "scheduler."+name+".apply") {
+					site = name
+				}
+			}
+			if strings.Contains(top, "scheduler.(*state).removeTorrent") {
+				site = "removeTorrent"
+			}
+			allParked := site != ""
+			cr.mu.Lock()
+			calls := append([]*call(nil), cr.calls...)
+			cr.mu.Unlock()
+			for _, c := range calls {
+				select {
+				case <-c.done:
+					continue
+				default:
+				}
+				if _, p := parkedInDownload(dump, c); !p {
+					allParked = false
+				}
+			}
+			select {
+			case <-done: // finished while we were looking
+				return true
+			default:
+			}
+			if allParked {
+				cr.mu.Lock()
+				nstale := 0
+				for _, v := range cr.stale {
+					nstale += len(v)
+				}
+				cr.mu.Unlock()
+				cr.run.Count("event_loop_blocked_forever", 1)
+				sig := "event-loop-blocked-sending-to-waiter/" + site
+				if nstale > 0 {
+					// a stale completion notice already put a value into a newer request's channel
+					sig += "/after-stale-completion-notice"
+				}
+				cr.run.Violation(sig, cr.spec.key(), map[string]interface{}{
+					"case": cr.spec, "executed": cr.executed, "where": where, "applied_event_order": cr.order(),
+					"what":      "the event loop goroutine is parked in a channel send inside " + site + " while no Download call can receive: the result channel (capacity 1) already holds a value nobody will take",
+					"goroutine": g.Stack, "stale_completion_notices_applied": nstale,
+				})
+				cr.wedged = true
+				return false
+			}
+		}
+		if time.Now().After(deadline) {
+			cr.fail("watchdog: " + where + " did not complete (event loop not provably blocked)")
+			return false
 		}
 	}
-	cr.run.Violation("event-loop-blocked-sending-to-waiter/"+site, cr.spec.key(), map[string]interface{}{
-		"case": cr.spec, "executed": cr.executed, "where": where, "applied": cr.order(), "goroutine": blocks[0],
-		"stale_completion_notices": len(cr.stale[0]) + len(cr.stale[1]),
-	})
-	cr.gate.ReleaseAll()
-	cr.wgate.ReleaseAll()
 }
 
 func (cr *caseRun) order() string {
@@ -777,42 +861,68 @@ func classify(err error) string {
 	return "other"
 }
 
+func (cr *caseRun) teardown() {
+	cr.gate.ReleaseAll()
+	cr.wgate.ReleaseAll()
+	if cr.stopStarted || cr.wedged {
+		// Either stopped by the case, or the loop is wedged (reported): only the store is left to close.
+		cr.L.CloseStoreOnly()
+	} else {
+		cr.L.Close()
+	}
+	os.RemoveAll(cr.L.Dir)
+}
+
 func (cr *caseRun) execute() {
+	t0 := time.Now()
 	if err := cr.setup(); err != nil {
 		cr.fail("setup: " + err.Error())
 		return
 	}
+	timing := os.Getenv("VERIF_C17_TIMING") != ""
+	if timing {
+		cr.run.Count("us_setup", time.Since(t0).Microseconds())
+	}
 	defer func() {
-		cr.gate.ReleaseAll()
-		cr.wgate.ReleaseAll()
-		if cr.stopped() {
-			cr.L.CloseStoreOnly()
-		} else if cr.stopStarted {
-			// Stop is wedged (reported above); leave the scheduler behind.
-			cr.L.CloseStoreOnly()
-		} else {
-			cr.L.Close()
+		t1 := time.Now()
+		cr.teardown()
+		if timing {
+			cr.run.Count("us_teardown", time.Since(t1).Microseconds())
 		}
-		os.RemoveAll(cr.L.Dir)
 	}()
 
 	for i, s := range cr.spec.Steps {
+		t0 := time.Now()
 		cr.execStep(i, s)
-		if cr.inconcl != "" || (cr.stopStarted && !cr.stopped()) {
+		if os.Getenv("VERIF_C17_TIMING") != "" {
+			cr.run.Count("us_step_"+s.Op, time.Since(t0).Microseconds())
+		}
+		if cr.inconcl != "" || cr.wedged || (cr.stopStarted && !cr.stopped()) {
 			break
 		}
 		if !cr.stopStarted {
-			if err := cr.L.Sched.Probe(); err != nil {
-				if errors.Is(err, scheduler.ErrSendEventTimedOut) {
-					cr.loopBlockedVerdict("probe after " + s.String())
-				} else {
-					cr.fail("probe: " + err.Error())
-				}
+			pd := make(chan struct{})
+			var perr error
+			go func() { perr = cr.L.Sched.Probe(); close(pd) }()
+			if !cr.awaitLoop(pd, "probe after "+s.String()) {
+				break
+			}
+			if perr != nil {
+				cr.fail("probe: " + perr.Error())
 				break
 			}
 			cr.run.Count("probes_ok", 1)
 		}
 	}
+	t2 := time.Now()
+	cr.finish()
+	if timing {
+		cr.run.Count("us_finish", time.Since(t2).Microseconds())
+	}
+}
+
+// finish stops the scheduler if the case has not, then judges every call.
+func (cr *caseRun) finish() {
 	if cr.inconcl != "" {
 		return
 	}
@@ -820,47 +930,105 @@ func (cr *caseRun) execute() {
 		cr.doStop()
 		cr.executed = append(cr.executed, "stop(final)")
 	}
-	if !cr.stopped() {
-		return // wedged Stop: already reported
+	if cr.wedged || !cr.stopped() {
+		return // wedged loop: already reported
 	}
 	cr.gate.ReleaseAll()
 	cr.wgate.ReleaseAll()
 
-	// Stop() has returned and nothing is held: every call must be back.
-	for _, c := range cr.calls {
+	cr.mu.Lock()
+	calls := append([]*call(nil), cr.calls...)
+	cr.mu.Unlock()
+
+	// Stop() has returned and nothing is held: nothing can deliver to a result
+	// channel any more. A call whose goroutine is parked in doDownload's
+	// receive is lost for good (a readied goroutine would be "runnable").
+	lost := map[*call]rig.Goroutine{}
+	deadline := time.Now().Add(watchdog)
+	wait := 5 * time.Millisecond
+	early := time.After(100 * time.Millisecond)
+early:
+	for _, c := range calls {
 		select {
 		case <-c.done:
-		case <-time.After(grace):
-			parked := rig.FindGoroutines("verifcall", c.id, "scheduler.(*scheduler).doDownload", "runtime.chanrecv")
-			if len(parked) == 0 {
-				cr.fail("watchdog: a Download has not returned after Stop, but is not parked on its result channel")
-				continue
-			}
-			cr.mu.Lock()
-			dropper := "unknown"
-			if len(cr.droppers) > 0 {
-				dropper = cr.droppers[0]
-			}
-			cr.mu.Unlock()
-			cr.run.Count("downloads_parked_after_stop", 1)
-			cr.run.Violation("download-never-returns/complete-unnotified-torrent-dropped-by-"+dropper, cr.spec.key(), map[string]interface{}{
-				"case": cr.spec, "executed": cr.executed, "applied_event_order": cr.order(),
-				"call": c.id, "call_started_at_step": c.step, "blob": c.b,
-				"what":      "Stop() returned, all gates open, the call is still parked in doDownload's receive: nothing can deliver any more",
-				"goroutine": parked[0],
-			})
+		case <-early:
+			break early
 		}
+	}
+	for {
+		var pending []*call
+		for _, c := range calls {
+			select {
+			case <-c.done:
+			default:
+				pending = append(pending, c)
+			}
+		}
+		if len(pending) == 0 {
+			break
+		}
+		time.Sleep(wait)
+		if wait < 200*time.Millisecond {
+			wait *= 2
+		}
+		dump := rig.Dump()
+		all := true
+		for _, c := range pending {
+			select {
+			case <-c.done:
+				continue
+			default:
+			}
+			if g, p := parkedInDownload(dump, c); p {
+				lost[c] = g
+			} else {
+				all = false
+			}
+		}
+		if all {
+			break
+		}
+		if time.Now().After(deadline) {
+			cr.fail("watchdog: a Download has not returned after Stop, but is not parked on its result channel")
+			break
+		}
+	}
+	for _, c := range calls {
+		g, ok := lost[c]
+		if !ok {
+			continue
+		}
+		select {
+		case <-c.done:
+			continue
+		default:
+		}
+		cr.mu.Lock()
+		cause := "waiter-lost-before-shutdown"
+		if d, ok := cr.droppers[c.b]; ok {
+			cause = "complete-unnotified-torrent-dropped-by-" + d
+		} else if st := cr.atShutdown[c.b]; st.Present && st.Waiters > 0 {
+			cause = "waiter-present-at-shutdown-not-notified"
+		}
+		cr.mu.Unlock()
+		cr.run.Count("downloads_parked_after_stop", 1)
+		cr.run.Violation("download-never-returns/"+cause, cr.spec.key(), map[string]interface{}{
+			"case": cr.spec, "executed": cr.executed, "applied_event_order": cr.order(),
+			"call": c.id, "call_started_at_step": c.step, "blob": c.b,
+			"what":      "Stop() returned, all gates open, the call is still parked in doDownload's receive: nothing can deliver any more",
+			"goroutine": g.Stack,
+		})
 	}
 	for _, ch := range cr.rmCalls {
 		select {
 		case <-ch:
-		case <-time.After(grace):
+		case <-time.After(watchdog):
 			cr.fail("watchdog: RemoveTorrent did not return after Stop")
 		}
 	}
 
 	// Results.
-	for _, c := range cr.calls {
+	for _, c := range calls {
 		select {
 		case <-c.done:
 		default:
@@ -903,6 +1071,121 @@ func (cr *caseRun) execute() {
 				"case": cr.spec, "executed": cr.executed, "call": c.id, "blob": c.b})
 		}
 	}
+}
+
+// ---------------------------------------------------------------------------
+// Free-running stress (thorough tier): no gates; several goroutines issue
+// Download / RemoveTorrent while one goroutine advances the clock; then Stop.
+// Same oracle.
+
+func (cr *caseRun) launch(stepIdx, b int) *call {
+	blob := cr.w.missing
+	if b >= 0 {
+		blob = cr.blobs[b]
+	}
+	cr.mu.Lock()
+	c := &call{id: fmt.Sprintf("%s-call%d", cr.id, len(cr.calls)), b: b, step: stepIdx, done: make(chan struct{})}
+	cr.calls = append(cr.calls, c)
+	cr.mu.Unlock()
+	go func() {
+		c.gid.Store(rig.GID())
+		c.startStamp = cr.next()
+		c.startPresent = b >= 0 && cr.L.InCache(blob)
+		c.err = cr.L.Sched.Download(rig.Namespace, blob.Digest)
+		if b >= 0 {
+			st := cr.L.Stat(blob, c.err == nil)
+			c.endPresent, c.endExact = st.InCache, !st.Mismatch
+		}
+		c.endStamp = cr.next()
+		close(c.done)
+	}()
+	return c
+}
+
+func stress(t *testing.T, run *ev.Run, base string) {
+	rounds := run.N(0, 400)
+	const workers = 8
+	var wg sync.WaitGroup
+	for wi := 0; wi < workers; wi++ {
+		wg.Add(1)
+		go func(wi int) {
+			defer wg.Done()
+			w, err := newWorker(run, 100+wi, base)
+			if err != nil {
+				run.Inconclusive("stress worker setup: " + err.Error())
+				return
+			}
+			defer w.seeder.Close()
+			for i := wi; i < rounds; i += workers {
+				r := run.Rand(fmt.Sprintf("stress-%d", i))
+				spec := &caseSpec{
+					ID: 1000000 + i, Kind: "stress", MS: 2 + r.Intn(3), ML: 2 + r.Intn(3),
+					NoBlacklist: r.Intn(2) == 0, Pipeline: 1 + r.Intn(3),
+					Blobs: []int{r.Intn(len(poolPieces))}, Stall: []int{-1},
+				}
+				nops := 6 + r.Intn(10)
+				for k := 0; k < nops; k++ {
+					switch x := r.Intn(10); {
+					case x < 5:
+						spec.Steps = append(spec.Steps, step{Op: "dl", B: 0})
+					case x < 7:
+						spec.Steps = append(spec.Steps, step{Op: "rm", B: 0})
+					case x < 8:
+						spec.Steps = append(spec.Steps, step{Op: "dlmissing"})
+					default:
+						spec.Steps = append(spec.Steps, step{Op: "tick", N: 1 + r.Intn(spec.MS+2)})
+					}
+				}
+				cr := &caseRun{run: run, w: w, spec: spec, id: fmt.Sprintf("s%d-c%d", wi, i), blobs: []*rig.Blob{w.pool[spec.Blobs[0]]}}
+				if err := cr.setup(); err != nil {
+					run.Inconclusive("stress setup: " + err.Error())
+					continue
+				}
+				// Three lanes run the ops concurrently; ticks are serialized on one lane
+				// (the mock clock allows a single advancing goroutine).
+				var lanes sync.WaitGroup
+				var tickMu sync.Mutex
+				acted := int32(0)
+				for lane := 0; lane < 3; lane++ {
+					lanes.Add(1)
+					go func(lane int) {
+						defer lanes.Done()
+						for k := lane; k < len(spec.Steps); k += 3 {
+							switch s := spec.Steps[k]; s.Op {
+							case "dl":
+								cr.launch(k, 0)
+							case "dlmissing":
+								cr.launch(k, -1)
+							case "rm":
+								_ = cr.L.Sched.RemoveTorrent(cr.blobs[0].Digest)
+								atomic.AddInt32(&acted, 1)
+							case "tick":
+								tickMu.Lock()
+								for n := 0; n < s.N; n++ {
+									cr.clk.Add(tickP)
+								}
+								tickMu.Unlock()
+								atomic.AddInt32(&acted, 1)
+							}
+						}
+					}(lane)
+				}
+				lanes.Wait()
+				cr.executed = []string{"free-running"}
+				cr.finish()
+				cr.teardown()
+				if cr.inconcl != "" {
+					run.Inconclusive(fmt.Sprintf("stress case %d: %s", i, cr.inconcl))
+					run.Case(spec.key(), false)
+					continue
+				}
+				run.Case(spec.key(), acted > 0)
+				run.Count("cases_stress", 1)
+				run.Distinct("event_orders", cr.order())
+			}
+		}(wi)
+	}
+	wg.Wait()
 }
 
 // ---------------------------------------------------------------------------
@@ -988,5 +1271,4 @@ func TestC17(t *testing.T) {
 	}
 	run.Set("event_orders_exercised", list)
 	run.Set("event_order_legend", "N=newTorrentEvent C=dispatcherCompleteEvent R=removeTorrentEvent T=preemptionTickEvent S=shutdownEvent, digit=blob index")
-	_ = filepath.Join
 }
